@@ -1340,7 +1340,7 @@ Definition wf_dgraph (g : dgraph) : Prop := forall d a, d < length g -> In a (nt
 Lemma postponed_exception_stale :
   exists (g : dgraph) (asg : list nat) (ops : list (cop nat)),
     wf_dgraph g /\
-    let s := fold_left (cstep nat 0 hsum false g) ops (cinit nat 0 hsum g asg) in
+    let s := fold_left (cstep nat 0 hsum (fun _ _ => false) true false g) ops (cinit nat 0 hsum (fun _ _ => false) true g asg) in
     final nat 0 g s <> nth (length g - 1) (cfresh nat 0 hsum g (assigned nat s)) 0.
 Proof.
   exists [[]; []; [0; 1]], [1; 2; 0], [CPostponed [(0, 5)] true; CAssign 1 7].
@@ -1354,13 +1354,16 @@ Section CtlProofs.
   Variable V : Type.
   Variable dflt : V.
   Variable h : nat -> list V -> V.
+  Variable fails : nat -> list V -> bool.
+  Variable retain : bool.
 
   Notation recompute := (recompute V dflt h).
-  Notation update_pass := (update_pass V dflt h).
-  Notation assign := (assign V dflt h).
-  Notation postponed := (postponed V dflt h).
-  Notation cstep := (cstep V dflt h).
-  Notation cinit := (cinit V dflt h).
+  Notation update_pass := (update_pass V dflt h fails retain).
+  Notation assign := (assign V dflt h fails retain).
+  Notation postponed := (postponed V dflt h fails retain).
+  Notation cstep := (cstep V dflt h fails retain).
+  Notation cinit := (cinit V dflt h fails retain).
+  Notation pass_step := (pass_step V dflt h fails).
   Notation cfresh := (cfresh V dflt h).
   Notation csolution := (csolution V dflt h).
   Notation cstate := (cstate V).
@@ -1406,60 +1409,67 @@ Section CtlProofs.
     intros g k d. unfold clients. rewrite filter_In, in_seq, memb_In. split; intros [H1 H2]; split; auto; lia.
   Qed.
 
-  Definition pass_step (g : dgraph) (asg : list V) (acc : list V * list nat) (d : nat) : list V * list nat :=
-    let '(vals, ch) := acc in
-    if memb d ch then (upd d (recompute g asg vals d) vals, ch ++ clients g d) else (vals, ch).
+  Lemma pass_frozen : forall g asg l vals ch, fold_left (pass_step g asg) l (vals, ch, true) = (vals, ch, true).
+  Proof. induction l as [|d l IH]; intros; simpl; auto. Qed.
 
+  (** the loop of _updateIntermediateValues, raising updates included: definitions that are not
+      (still) dirty satisfy their equation; if no update raised, all do *)
   Lemma pass_fold : forall g asg, wf_dgraph g -> forall m k vals ch,
     k + m = length g -> length vals = length g ->
     (forall d, d < k -> lok g asg vals d) ->
     (forall d, k <= d < length g -> memb d ch = false -> lok g asg vals d) ->
-    let '(vals', ch') := fold_left (pass_step g asg) (seq k m) (vals, ch) in
-    length vals' = length g /\ forall d, d < length g -> lok g asg vals' d.
+    let '(vals', ch', fl) := fold_left (pass_step g asg) (seq k m) (vals, ch, false) in
+    length vals' = length g /\
+    (fl = false -> forall d, d < length g -> lok g asg vals' d) /\
+    (forall d, d < length g -> memb d ch' = false -> lok g asg vals' d).
   Proof.
     intros g asg Hwf. induction m as [|m IH]; intros k vals ch Hkm Hl Hlo Hhi.
-    - simpl. split; auto. intros d Hd. apply Hlo. lia.
-    - simpl. assert (Hk : k < length g) by lia.
-      destruct (memb k ch) eqn:Em.
-      + set (vals1 := upd k (recompute g asg vals k) vals).
-        assert (Hn1 : forall a, a <> k -> nth a vals1 dflt = nth a vals dflt) by (intros a Ha; apply nth_upd_neq; auto).
-        assert (Hargs : forall d, d <= k -> d < length g -> recompute g asg vals1 d = recompute g asg vals d).
-        { intros d Hd Hdl. apply recompute_ext. intros a Ha. apply Hn1. specialize (Hwf d a Hdl Ha). lia. }
-        apply IH; [lia|unfold vals1; rewrite length_upd; auto| |].
-        * intros d Hd. unfold lok. destruct (Nat.eq_dec d k) as [->|Hne].
-          -- rewrite Hargs by lia. unfold vals1. apply nth_upd_eq. lia.
-          -- rewrite Hargs by lia. rewrite Hn1 by auto. apply Hlo. lia.
-        * intros d Hd Hm. rewrite memb_app in Hm. apply orb_false_iff in Hm. destruct Hm as [Hm1 Hm2].
-          unfold lok. rewrite Hn1 by lia.
-          rewrite (recompute_ext g asg vals vals1 d).
-          -- apply Hhi; auto. lia.
-          -- intros a Ha. apply Hn1. intros ->. apply memb_false in Hm2. apply Hm2. apply In_clients. split; [lia|auto].
+    - simpl. split; auto. split; [intros _ d Hd; apply Hlo; lia|]. intros d Hd _. apply Hlo. lia.
+    - cbn [seq fold_left]. assert (Hk : k < length g) by lia.
+      unfold Calc.pass_step at 2. destruct (memb k ch) eqn:Em.
+      + destruct (raises_at V dflt fails g vals k) eqn:Er.
+        * (* the update raised: the loop is abandoned, nothing else changes *)
+          rewrite pass_frozen. split; auto. split; [discriminate|].
+          intros d Hd Hm. destruct (Nat.lt_ge_cases d k); [apply Hlo; auto|apply Hhi; auto].
+        * set (vals1 := upd k (recompute g asg vals k) vals).
+          assert (Hn1 : forall a, a <> k -> nth a vals1 dflt = nth a vals dflt) by (intros a Ha; apply nth_upd_neq; auto).
+          assert (Hargs : forall d, d <= k -> d < length g -> recompute g asg vals1 d = recompute g asg vals d).
+          { intros d Hd Hdl. apply recompute_ext. intros a Ha. apply Hn1. specialize (Hwf d a Hdl Ha). lia. }
+          apply IH; [lia|unfold vals1; rewrite length_upd; auto| |].
+          -- intros d Hd. unfold lok. destruct (Nat.eq_dec d k) as [->|Hne].
+             ++ rewrite Hargs by lia. unfold vals1. apply nth_upd_eq. lia.
+             ++ rewrite Hargs by lia. rewrite Hn1 by auto. apply Hlo. lia.
+          -- intros d Hd Hm. rewrite memb_app in Hm. apply orb_false_iff in Hm. destruct Hm as [Hm1 Hm2].
+             unfold lok. rewrite Hn1 by lia.
+             rewrite (recompute_ext g asg vals vals1 d).
+             ++ apply Hhi; auto. lia.
+             ++ intros a Ha. apply Hn1. intros ->. apply memb_false in Hm2. apply Hm2. apply In_clients. split; [lia|auto].
       + apply IH; [lia|auto| |].
         * intros d Hd. destruct (Nat.eq_dec d k) as [->|Hne]; [apply Hhi; auto; lia|apply Hlo; lia].
         * intros d Hd Hm. apply Hhi; auto. lia.
   Qed.
 
-  Lemma update_pass_unfold : forall g s, suspended V s = false ->
-    update_pass g s =
-    let '(vals, ch) := fold_left (pass_step g (assigned V s)) (seq 0 (length g)) (values V s, changed V s) in
-    mk_cstate V vals (assigned V s) [] (suspended V s).
-  Proof. intros g s Hs. unfold Calc.update_pass. rewrite Hs. reflexivity. Qed.
-
-  Lemma update_pass_clean : forall g s, wf_dgraph g -> CInv g s -> suspended V s = false ->
-    CClean g (update_pass g s) /\ assigned V (update_pass g s) = assigned V s.
-  Proof.
-    intros g s Hwf [Hl Hlok] Hs. rewrite update_pass_unfold by auto.
-    pose proof (pass_fold g (assigned V s) Hwf (length g) 0 (values V s) (changed V s) eq_refl Hl
-                          ltac:(intros; lia) ltac:(intros d Hd Hm; apply Hlok; auto; lia)) as H.
-    destruct (fold_left (pass_step g (assigned V s)) (seq 0 (length g)) (values V s, changed V s)) as [vals' ch'].
-    destruct H as [H1 H2]. split; [|reflexivity]. repeat split; simpl; auto.
-  Qed.
-
   Lemma update_pass_suspended : forall g s, suspended V s = true -> update_pass g s = s.
   Proof. intros g s Hs. unfold Calc.update_pass. rewrite Hs. reflexivity. Qed.
 
-  Lemma CClean_CInv : forall g s, CClean g s -> CInv g s.
-  Proof. intros g s [_ [_ [Hl Hsol]]]. split; auto. intros d Hd _. apply Hsol. exact Hd. Qed.
+  (** with the dirty set retained, a pass — raising or not — keeps the invariant; and a pass that
+      leaves no dirty definition has produced the solution *)
+  Lemma update_pass_inv : forall g s, wf_dgraph g -> CInv g s -> retain = true ->
+    CInv g (update_pass g s) /\ assigned V (update_pass g s) = assigned V s /\
+    suspended V (update_pass g s) = suspended V s.
+  Proof.
+    intros g s Hwf [Hl Hlok] Hret. destruct (suspended V s) eqn:Hs.
+    - rewrite update_pass_suspended by auto. repeat split; auto.
+    - unfold Calc.update_pass. rewrite Hs.
+      pose proof (pass_fold g (assigned V s) Hwf (length g) 0 (values V s) (changed V s) eq_refl Hl
+                            ltac:(intros; lia) ltac:(intros d Hd Hm; apply Hlok; auto; lia)) as H.
+      destruct (fold_left (pass_step g (assigned V s)) (seq 0 (length g)) (values V s, changed V s, false)) as [[vals' ch'] fl].
+      destruct H as [H1 [H2 H3]]. simpl. rewrite Hret. split; [|auto]. split; simpl; auto.
+      intros d Hd Hm. destruct fl; [apply H3; auto|apply H2; auto].
+  Qed.
+
+  Lemma CInv_clean : forall g s, CInv g s -> changed V s = [] -> csolution g (assigned V s) (values V s).
+  Proof. intros g s [Hl Hlok] Hc d Hd. apply Hlok; auto. rewrite Hc. reflexivity. Qed.
 
   (** marking a definition dirty and changing its setting keeps the invariant *)
   Lemma CInv_mark : forall g s d v,
@@ -1470,34 +1480,28 @@ Section CtlProofs.
     apply Nat.eqb_neq in Hne. unfold lok. simpl. rewrite recompute_asg by auto. apply Hlok; auto.
   Qed.
 
-  Lemma assign_ok : forall g s d v, wf_dgraph g -> CInv g s ->
-    assigned V (assign g s d v) = upd d v (assigned V s) /\
-    suspended V (assign g s d v) = suspended V s /\
-    (suspended V s = false -> CClean g (assign g s d v)) /\
-    (suspended V s = true -> CInv g (assign g s d v)).
+  Lemma assign_ok : forall g s d v, wf_dgraph g -> retain = true -> CInv g s ->
+    CInv g (assign g s d v) /\ assigned V (assign g s d v) = upd d v (assigned V s) /\
+    suspended V (assign g s d v) = suspended V s.
   Proof.
-    intros g s d v Hwf HI. unfold Calc.assign.
+    intros g s d v Hwf Hret HI. unfold Calc.assign.
     set (s1 := mk_cstate V (values V s) (upd d v (assigned V s)) (d :: changed V s) (suspended V s)).
     assert (HI1 : CInv g s1) by (apply CInv_mark; auto).
-    destruct (suspended V s) eqn:Es.
-    - rewrite update_pass_suspended by (unfold s1; simpl; auto).
-      split; [reflexivity|]. split; [unfold s1; simpl; reflexivity|]. split; [discriminate|]. intros _. exact HI1.
-    - destruct (update_pass_clean g s1 Hwf HI1 ltac:(unfold s1; simpl; auto)) as [Hc Ha].
-      split; [rewrite Ha; reflexivity|]. split; [destruct Hc as [H _]; exact H|]. split; auto. discriminate.
+    destruct (update_pass_inv g s1 Hwf HI1 Hret) as [A [B C]]. split; auto.
   Qed.
 
   Definition asg_all (body : list (nat * V)) (asg : list V) : list V :=
     fold_left (fun a dv => upd (fst dv) (snd dv) a) body asg.
 
-  Lemma body_fold : forall g, wf_dgraph g -> forall body s,
-    CInv g s -> suspended V s = true ->
+  Lemma body_fold : forall g, wf_dgraph g -> retain = true -> forall body s,
+    CInv g s ->
     let s2 := fold_left (fun s dv => assign g s (fst dv) (snd dv)) body s in
-    CInv g s2 /\ suspended V s2 = true /\ assigned V s2 = asg_all body (assigned V s).
+    CInv g s2 /\ suspended V s2 = suspended V s /\ assigned V s2 = asg_all body (assigned V s).
   Proof.
-    intros g Hwf. induction body as [|[d v] t IH]; intros s HI Hs; simpl; auto.
-    destruct (assign_ok g s d v Hwf HI) as [Ha [Hsu [_ Hc]]].
-    specialize (IH (assign g s d v) (Hc Hs) ltac:(rewrite Hsu; exact Hs)). simpl in IH.
-    destruct IH as [I1 [I2 I3]]. split; auto. split; auto. rewrite I3, Ha. reflexivity.
+    intros g Hwf Hret. induction body as [|[d v] t IH]; intros s HI; simpl; auto.
+    destruct (assign_ok g s d v Hwf Hret HI) as [Hc [Ha Hsu]].
+    specialize (IH (assign g s d v) Hc). simpl in IH.
+    destruct IH as [I1 [I2 I3]]. split; auto. split; [congruence|]. rewrite I3, Ha. reflexivity.
   Qed.
 
   Definition no_raise (o : cop V) : Prop := match o with CPostponed _ true => False | _ => True end.
@@ -1505,55 +1509,50 @@ Section CtlProofs.
   Definition spec_asg (asg : list V) (ops : list (cop V)) : list V :=
     fold_left (fun a o => match o with CAssign d v => upd d v a | CPostponed body _ => asg_all body a end) ops asg.
 
-  Lemma cstep_ok : forall fin g s o, wf_dgraph g -> CClean g s -> (fin = true \/ no_raise o) ->
-    CClean g (cstep fin g s o) /\
+  Lemma cstep_ok : forall fin g s o, wf_dgraph g -> retain = true -> CInv g s -> suspended V s = false ->
+    (fin = true \/ no_raise o) ->
+    CInv g (cstep fin g s o) /\ suspended V (cstep fin g s o) = false /\
     assigned V (cstep fin g s o) = match o with CAssign d v => upd d v (assigned V s) | CPostponed body _ => asg_all body (assigned V s) end.
   Proof.
-    intros fin g s o Hwf Hc Hor. pose proof (CClean_CInv g s Hc) as HI. destruct Hc as [Hs [Hch [Hl Hsol]]].
+    intros fin g s o Hwf Hret HI Hs Hor.
     destruct o as [d v|body raises]; simpl.
-    - destruct (assign_ok g s d v Hwf HI) as [Ha [_ [Hcl _]]]. split; auto.
+    - destruct (assign_ok g s d v Hwf Hret HI) as [Hc [Ha Hsu]]. split; auto. split; [congruence|auto].
     - unfold Calc.postponed. rewrite Hs.
       set (s1 := mk_cstate V (values V s) (assigned V s) (changed V s) true).
       assert (HI1 : CInv g s1) by (destruct HI; split; auto).
-      destruct (body_fold g Hwf body s1 HI1 eq_refl) as [I1 [I2 I3]].
+      destruct (body_fold g Hwf Hret body s1 HI1) as [I1 [I2 I3]].
       set (s2 := fold_left (fun s dv => assign g s (fst dv) (snd dv)) body s1) in *.
       assert (Hb : raises && negb fin = false).
       { destruct Hor as [->|Hn]; [destruct raises; reflexivity|]. destruct raises; simpl in Hn; [contradiction|reflexivity]. }
       rewrite Hb.
       set (s3 := mk_cstate V (values V s2) (assigned V s2) (changed V s2) false).
       assert (HI3 : CInv g s3) by (destruct I1; split; auto).
-      destruct (update_pass_clean g s3 Hwf HI3 eq_refl) as [Hc3 Ha3]. split; auto.
-      rewrite Ha3. unfold s3. simpl. rewrite I3. reflexivity.
+      destruct (update_pass_inv g s3 Hwf HI3 Hret) as [A [B C]]. split; auto. split; [rewrite C; reflexivity|].
+      rewrite B. unfold s3. simpl. rewrite I3. reflexivity.
   Qed.
 
-  Lemma cinit_ok : forall g asg, wf_dgraph g -> CClean g (cinit g asg) /\ assigned V (cinit g asg) = asg.
+  Lemma cinit_ok : forall g asg, wf_dgraph g -> retain = true ->
+    CInv g (cinit g asg) /\ suspended V (cinit g asg) = false /\ assigned V (cinit g asg) = asg.
   Proof.
-    intros g asg Hwf. unfold Calc.cinit. apply update_pass_clean; auto.
-    split; simpl; [apply repeat_length|]. intros d Hd Hm. exfalso.
-    apply memb_false in Hm. apply Hm. apply in_seq. lia.
+    intros g asg Hwf Hret. unfold Calc.cinit.
+    set (s0 := mk_cstate V (repeat dflt (length g)) asg (seq 0 (length g)) false).
+    assert (HI : CInv g s0).
+    { split; simpl; [apply repeat_length|]. intros d Hd Hm. exfalso.
+      apply memb_false in Hm. apply Hm. apply in_seq. lia. }
+    destruct (update_pass_inv g s0 Hwf HI Hret) as [A [B C]]. auto.
   Qed.
 
-  Lemma ctl_run_gen : forall fin g, wf_dgraph g -> forall ops s,
-    (fin = true \/ Forall no_raise ops) -> CClean g s ->
-    CClean g (fold_left (cstep fin g) ops s) /\
+  Lemma ctl_run_gen : forall fin g, wf_dgraph g -> retain = true -> forall ops s,
+    (fin = true \/ Forall no_raise ops) -> CInv g s -> suspended V s = false ->
+    CInv g (fold_left (cstep fin g) ops s) /\ suspended V (fold_left (cstep fin g) ops s) = false /\
     assigned V (fold_left (cstep fin g) ops s) = spec_asg (assigned V s) ops.
   Proof.
-    intros fin g Hwf. induction ops as [|o t IH]; intros s Hor Hc; simpl; auto.
+    intros fin g Hwf Hret. induction ops as [|o t IH]; intros s Hor Hc Hs; simpl; auto.
     assert (Ho : fin = true \/ no_raise o) by (destruct Hor as [H|H]; [left; auto|right; inversion H; auto]).
     assert (Ht : fin = true \/ Forall no_raise t) by (destruct Hor as [H|H]; [left; auto|right; inversion H; auto]).
-    destruct (cstep_ok fin g s o Hwf Hc Ho) as [Hc1 Ha1].
-    destruct (IH (cstep fin g s o) Ht Hc1) as [I1 I2]. split; auto.
-    rewrite I2. unfold spec_asg. simpl. rewrite Ha1. reflexivity.
-  Qed.
-
-  Theorem ctl_run_ok : forall fin g asg ops, wf_dgraph g ->
-    (fin = true \/ Forall no_raise ops) ->
-    let s := fold_left (cstep fin g) ops (cinit g asg) in
-    CClean g s /\ assigned V s = spec_asg asg ops.
-  Proof.
-    intros fin g asg ops Hwf Hor. destruct (cinit_ok g asg Hwf) as [Hc Ha].
-    destruct (ctl_run_gen fin g Hwf ops (cinit g asg) Hor Hc) as [H1 H2]. simpl. split; auto.
-    rewrite H2, Ha. reflexivity.
+    destruct (cstep_ok fin g s o Hwf Hret Hc Hs Ho) as [Hc1 [Hs1 Ha1]].
+    destruct (IH (cstep fin g s o) Ht Hc1 Hs1) as [I1 [I2 I3]]. split; auto. split; auto.
+    rewrite I3. unfold spec_asg. simpl. rewrite Ha1. reflexivity.
   Qed.
 
   (** the solution of the equations is unique and is what cfresh computes *)
@@ -1594,19 +1593,38 @@ Section CtlProofs.
     apply (cfresh_fold g asg Hwf (length g) 0); auto; [apply repeat_length|intros; lia].
   Qed.
 
-  Theorem ctl_refines_fresh : forall fin g asg ops, wf_dgraph g ->
+  (** any history — raising definition updates included — keeps the invariant; and whenever the
+      dirty set is empty (the last propagation went through) the values are the fresh evaluation *)
+  Theorem ctl_refines_fresh : forall fin g asg ops, wf_dgraph g -> retain = true ->
     (fin = true \/ Forall no_raise ops) ->
     let s := fold_left (cstep fin g) ops (cinit g asg) in
-    suspended V s = false /\
-    values V s = cfresh g (spec_asg asg ops) /\
-    final V dflt g s = nth (length g - 1) (cfresh g (spec_asg asg ops)) dflt.
+    suspended V s = false /\ assigned V s = spec_asg asg ops /\
+    (changed V s = [] ->
+       values V s = cfresh g (spec_asg asg ops) /\
+       final V dflt g s = nth (length g - 1) (cfresh g (spec_asg asg ops)) dflt).
   Proof.
-    intros fin g asg ops Hwf Hor. destruct (ctl_run_ok fin g asg ops Hwf Hor) as [[Hs [Hch [Hl Hsol]]] Ha].
-    simpl. split; auto.
+    intros fin g asg ops Hwf Hret Hor. destruct (cinit_ok g asg Hwf Hret) as [Hc [Hs Ha]].
+    destruct (ctl_run_gen fin g Hwf Hret ops (cinit g asg) Hor Hc Hs) as [H1 [H2 H3]].
+    simpl. split; auto. rewrite Ha in H3. split; auto. intros Hch.
     assert (Hv : values V (fold_left (cstep fin g) ops (cinit g asg)) = cfresh g (spec_asg asg ops)).
     { destruct (cfresh_solution g (spec_asg asg ops) Hwf) as [Hlf Hsf].
-      apply (csolution_unique g (spec_asg asg ops)); auto. rewrite <- Ha. exact Hsol. }
+      apply (csolution_unique g (spec_asg asg ops)); auto.
+      - destruct H1; auto.
+      - rewrite <- H3. apply CInv_clean; auto. }
     split; auto. unfold final. rewrite Hv. reflexivity.
+  Qed.
+
+  (** a propagation that raises never leaves the dirty set empty (retain = true): "dirty set empty"
+      is exactly "the last propagation went through" *)
+  Lemma failed_pass_dirty : forall g asg l vals ch vals' ch',
+    fold_left (pass_step g asg) l (vals, ch, false) = (vals', ch', true) -> ch' <> [].
+  Proof.
+    intros g asg. induction l as [|d l IH]; intros vals ch vals' ch' H; simpl in H; [discriminate|].
+    destruct (memb d ch) eqn:Em.
+    - destruct (raises_at V dflt fails g vals d).
+      + rewrite pass_frozen in H. inversion H; subst. intros ->. discriminate.
+      + eapply IH; eauto.
+    - eapply IH; eauto.
   Qed.
 End CtlProofs.
 
@@ -1658,3 +1676,22 @@ Section RuleProofs.
   Qed.
 End RuleProofs.
 
+(** the swap-and-clear variant of _updateIntermediateValues ([retain = false]) loses the pending
+    definitions when an update raises: definition 2 = p0 + p1 raises above 22; definition 3 = p0
+    comes after it.  p0 := 5 is rejected (25), the caller catches; p1 := 10 repairs (15): definition
+    2 is recomputed, definition 3 still shows the old p0 *)
+Definition fails_ex (d : nat) (args : list nat) : bool := (d =? 2) && (22 <? fold_left Nat.add args 0).
+
+Lemma lost_dirty_set_stale :
+  let g : dgraph := [[]; []; [0; 1]; [0]] in
+  let ops := [CAssign 0 5; CAssign 1 10] in
+  wf_dgraph g /\
+  (let s := fold_left (cstep nat 0 hsum fails_ex false true g) ops (cinit nat 0 hsum fails_ex false g [1; 20; 0; 0]) in
+   changed nat s = [] /\ values nat s <> cfresh nat 0 hsum g (assigned nat s)) /\
+  (let s := fold_left (cstep nat 0 hsum fails_ex true true g) ops (cinit nat 0 hsum fails_ex true g [1; 20; 0; 0]) in
+   changed nat s = [] /\ values nat s = cfresh nat 0 hsum g (assigned nat s)).
+Proof.
+  split.
+  - intros d a Hd Ha. destruct d as [|[|[|[|d]]]]; simpl in *; try lia; try contradiction; intuition lia.
+  - split; vm_compute; split; try reflexivity; discriminate.
+Qed.
